@@ -2,9 +2,9 @@
    by [exact] of a lemma proved in the C05/ files; Print Assumptions is evaluated by ./check on
    every run.  Model: C05/Bytes.v (bytes, little-endian integers), C05/Kastore.v (the kastore
    container, writer and reader), C05/TskFile.v (tskit's column schema layer). *)
-From Coq Require Import List ZArith Permutation Sorted.
+From Coq Require Import List ZArith Bool Permutation Sorted.
 From TskVerif Require Import Base.Common Gen.Generated C05.Bytes C05.Kastore C05.KastoreProofs C05.TskFile
-  C05.TskProofs C05.StreamProofs C05.SearchProofs C05.Equals C05.EqualsProofs C05.TableProofs C05.TcRoundtrip C10.TruncProofs.
+  C05.TskProofs C05.StreamProofs C05.SearchProofs C05.Equals C05.EqualsProofs C05.TableProofs C05.TcRoundtrip C10.TruncProofs C10.CorruptProofs.
 Import ListNotations.
 Open Scope Z_scope.
 
@@ -104,3 +104,10 @@ Theorem stream_truncated_tail : forall (stores : list (list item)) its n,
   Forall enc_ok stores -> items_ok its -> (0 < n < length (kas_write its))%nat ->
   read_all_stores (S (S (length stores))) (concat (map kas_encode stores) ++ firstn n (kas_write its)) = Err E_FORMAT.
 Proof. exact TruncProofs.stream_truncated_tail. Qed.
+
+(* mixed eager / lazy reads on a multi-object stream: the lazy (skip_tables / skip_reference_sequence)
+   path reads its arrays relative to the start of the store, so object j of a concatenation is loaded
+   exactly as from a file of its own, whatever follows it *)
+Theorem lazy_load_ignores_rest : forall its rest sk sr, items_ok its -> its <> [] -> sk || sr = true ->
+  tsk_load_bytes sk sr (kas_write its ++ rest) = tsk_load_bytes sk sr (kas_write its).
+Proof. exact CorruptProofs.lazy_load_ignores_rest. Qed.
